@@ -60,8 +60,11 @@ def setup(ctx):
 def synth(rng, n, sit):
     names = [f"read{i}" for i in range(max(1, n // rng.choice([1, 2, 3, 6])))]
     lines = []
+    described = rng.random() < 0.2  # GraphAligner style: "name description"; the read is the part before the blank
     for i in range(n):
         name = rng.choice(names)
+        if described and rng.random() < 0.8:
+            name += f" ch={rng.randint(1, 9)} start={rng.randint(0, 999)}"
         span = rng.randint(1, 400)
         cg, q, matches, block = ggaf.rand_cigar(rng, span)
         qs = rng.randint(0, 20)
@@ -100,7 +103,7 @@ def ref_stat(lines):
             prim.append(r)
     reads = collections.OrderedDict()
     for r in prim:
-        d = reads.setdefault(r.qname, {"ident": 0.0, "ratio": 0.0, "n": 0})
+        d = reads.setdefault(r.qname.split(" ")[0], {"ident": 0.0, "ratio": 0.0, "n": 0})
         d["n"] += 1
         d["ident"] = max(d["ident"], r.matches / r.block)
         d["ratio"] = max(d["ratio"], (r.qe - r.qs) / r.qlen)
